@@ -281,6 +281,86 @@ def history_cases(ctx: Ctx):
     return cases
 
 
+def _same_structure(a, b):
+    if type(a) is not type(b):
+        return False
+    if isinstance(a, dict):
+        return a.keys() == b.keys() and all(_same_structure(a[k], b[k]) for k in a)
+    if isinstance(a, (list, tuple)):
+        return len(a) == len(b) and all(_same_structure(x, y) for x, y in zip(a, b))
+    if isinstance(a, np.ndarray):
+        return a.dtype == b.dtype and a.shape == b.shape and bool(np.array_equal(a, b, equal_nan=True)) if a.dtype.kind in "fc" else bool(np.array_equal(a, b))
+    if callable(a):
+        return a is b
+    try:
+        if a != a and b != b:
+            return True
+        return bool(a == b)
+    except Exception:
+        return a is b
+
+
+def check_user_aggregation(case):
+    """A user's Aggregation object handed to two calls that differ in fill_value / min_count: the object is left exactly as
+    it was, and the first lazy result, computed again after the second call was made, still has its own values."""
+    import copy
+    import warnings
+
+    import dask.array as da
+
+    from ..rtc.custom_aggs import make
+    from ..rtc.reduce_case import arrays_equal, dec
+
+    sig = {"part": "user_aggregation", "func": case["custom_agg"]}
+    try:
+        with warnings.catch_warnings():
+            warnings.simplefilter("ignore")
+            from flox.core import groupby_reduce
+
+            agg = make(case["custom_agg"])
+            before = copy.deepcopy({k: v for k, v in agg.__dict__.items()})
+            arr, by = dec(case["array"]), dec(case["by"][0])
+            lazy = da.from_array(arr, chunks=tuple(tuple(c) for c in case["chunks"])) if case.get("chunks") else arr
+            eg = np.array(case["expected_groups"][0])
+
+            def call(fill, mc):
+                return groupby_reduce(lazy, by, func=agg, expected_groups=eg, fill_value=fill, min_count=mc, method=case.get("method"))[0]
+
+            first = call(case["fills"][0], case["min_counts"][0])
+            r1 = np.asarray(first.compute(scheduler="sync") if hasattr(first, "compute") else first)
+            second = call(case["fills"][1], case["min_counts"][1])
+            r2 = np.asarray(second.compute(scheduler="sync") if hasattr(second, "compute") else second)
+            r1_again = np.asarray(first.compute(scheduler="sync")) if hasattr(first, "compute") else r1
+            # fresh objects for the reference
+            agg_f = make(case["custom_agg"])
+            ref1 = groupby_reduce(arr, by, func=agg_f, expected_groups=eg, fill_value=case["fills"][0], min_count=case["min_counts"][0])[0]
+            agg_g = make(case["custom_agg"])
+            ref2 = groupby_reduce(arr, by, func=agg_g, expected_groups=eg, fill_value=case["fills"][1], min_count=case["min_counts"][1])[0]
+    except Exception as e:
+        return {"case": case, "why": f"raised {type(e).__name__}: {str(e)[:200]}", "sig": sig}
+    after = {k: v for k, v in agg.__dict__.items()}
+    if not _same_structure(before, after):
+        changed = [k for k in before if not _same_structure(before[k], after.get(k))]
+        return {"case": case, "why": f"the user's Aggregation object was modified by the calls: attributes {changed}", "sig": sig}
+    for name, got, ref in (("first result", r1, ref1), ("second result", r2, ref2), ("first result computed again after the second call", r1_again, ref1)):
+        w = arrays_equal(got, np.asarray(ref), exact=False)
+        if w:
+            return {"case": case, "why": f"{name} differs from the result with a fresh Aggregation object: {w}", "sig": sig}
+    return None
+
+
+def user_aggregation_cases(ctx: Ctx):
+    cases = []
+    lab = np.array([5, 5, 25, 25, 5, 25, 5, 25])
+    v = np.array([1.0, 2.0, 3.0, 4.0, 5.0, 6.0, np.nan, 8.0])
+    for name in ("range", "sumcubes", "msq"):
+        for ch in (None, [[3, 3, 2]], [[8]], [[1] * 8]):
+            for fills, mcs in (((-5.0, 7.0), (1, 1)), ((0.0, "nan"), (1, 2)), ((3.0, 3.0), (None, 4))):
+                for method in ((None,) if ch is None else (None, "map-reduce", "cohorts")):
+                    cases.append(dict(custom_agg=name, array=enc(v), by=[enc(lab)], chunks=ch, expected_groups=[[5, 15, 25, 35]], fills=[float("nan") if f == "nan" else f for f in fills], min_counts=list(mcs), method=method))
+    return cases
+
+
 def cocompute_cases(ctx: Ctx):
     rng = gen.rng_for(ctx, 140)
     n = 6
@@ -343,6 +423,12 @@ def run(ctx: Ctx):
             rule="postcondition: dask.compute(r1, r2) in both orders == each alone; no key of the merged graph names two different tasks; non-trivial = every pair",
             nontrivial=lambda c: True, chunksize=4,
         )
+        run_bounded(
+            ctx, "C14.rtc.user_aggregation", FUNCTION, user_aggregation_cases(ctx), "vlib.props.C14:check_user_aggregation",
+            bound="three user-defined Aggregation objects x eager / 3 chunkings x 3 methods x 3 pairs of (fill_value, min_count): two calls sharing one Aggregation object",
+            rule="postcondition: the user's Aggregation object is structurally unchanged after both calls; both results, and the first result computed again after the second call, equal the results with fresh objects",
+            nontrivial=lambda c: True, chunksize=4,
+        )
     ctx.assume("dask.base.tokenize is injective on the values it is given (assumed)", "clearing flox.cache.cache and get_parts' lru_cache stands for a fresh interpreter")
     ctx.trust("dask.base.tokenize", "cachey", "functools.lru_cache", "z3 / cvc5")
     return "other", ("Mixed: frame / cache-purity / token-coverage obligations by FrameCheck on the real source; histories and co-computation pairs are bounded stand-ins. " + note)
@@ -361,6 +447,6 @@ def replay(payload):
         return 1
     payload = {**payload, "case": _case_of(payload)}
     case = payload["case"]
-    r = check_history(case) if "history" in case else check_cocompute(case)
+    r = check_history(case) if "history" in case else (check_user_aggregation(case) if "custom_agg" in case and "fills" in case else check_cocompute(case))
     print("REPLAY:", "contract holds" if r is None else r["why"])
     return 0 if r is None else 1
